@@ -4,7 +4,7 @@
 //   CFG_ELEM  4 int | 20 TR | 21 NTR
 //   CFG_CMP   0 less | 1 greater | 2 coarse (a/2 < b/2) | 3 stateful (mod m; default-constructed instance differs and
 //             is flagged) | 4 transparent less<> with heterogeneous double keys (int elements only)
-//   CFG_VEC   FlatSet underlying vector: 0 amc::vector | 1 SmallVector<T,2> | 2 FixedCapacityVector<T,8> | 3 std::vector
+//   CFG_VEC   FlatSet underlying vector: 0 amc::vector | 1 SmallVector<T,2> | 2 FixedCapacityVector<T,8> | 3 std::vector | 4 FixedCapacityVector<T,3>
 //   CFG_BACK  SmallSet backing set: 0 std::set | 1 FlatSet
 //   CFG_ALLOC 0 amc::allocator | 2 LedgerStd
 //   CFG_KEYS  size of the key domain {0..k-1}
@@ -204,16 +204,22 @@ constexpr const char *kVecName = "smallvector2";
 #elif CFG_VEC == 2
 typedef amc::FixedCapacityVector<T, 8> UVec;
 constexpr const char *kVecName = "fixed8";
+#elif CFG_VEC == 4
+// smaller than the key domain: the set meets a FULL underlying vector (std::out_of_range out of insertions)
+typedef amc::FixedCapacityVector<T, 3> UVec;
+constexpr const char *kVecName = "fixed3";
 #else
 typedef std::vector<T, Alloc> UVec;
 constexpr const char *kVecName = "stdvector";
 #endif
 
-#if CFG_VEC == 2
+#if CFG_VEC == 2 || CFG_VEC == 4
 typedef amc::vec::EmptyAlloc FAlloc;
 #else
 typedef Alloc FAlloc;
 #endif
+/// capacity of a fixed underlying vector (0: it grows)
+constexpr int kFixedCap = (CFG_KIND == 0 && CFG_VEC == 2) ? 8 : (CFG_KIND == 0 && CFG_VEC == 4) ? 3 : 0;
 typedef amc::FlatSet<T, Cmp, FAlloc, UVec> Flat;
 
 #if CFG_KIND == 0
